@@ -25,7 +25,7 @@ HEADER = '''from __future__ import annotations
 import datetime
 import decimal as _decimal
 from dataclasses import dataclass, field
-from enum import Enum
+from enum import Enum, IntEnum, IntFlag, StrEnum
 from typing import Any, Optional
 from xml.etree.ElementTree import QName
 from xsdata.models.datatype import (XmlBase64Binary, XmlDate, XmlDateTime, XmlDuration, XmlHexBinary, XmlPeriod,
@@ -241,6 +241,26 @@ ANNOT = {"int": "int", "float": "float", "str": "str", "bool": "bool", "dec": "D
          "pydatetime": "datetime.datetime"}
 
 
+ENUM_BASES = ["IntEnum", "IntFlag", "StrEnum", "str, Enum", "float, Enum", "bytes, Enum"]
+
+
+def enum_member_value(base, i, name):
+    """Member values of mixed-in enums.  They are chosen outside everything the scalar generators
+    produce: a member of such an enum == its value in Python, and the model compares enum members
+    only with enum members (no field default or dict key may equal a member by value)."""
+    if base == "IntEnum":
+        return repr(7001 + i)
+    if base == "IntFlag":
+        return repr(1 << (12 + i))          # single named flags only (composite flags have no member name)
+    if base in ("StrEnum", "str, Enum"):
+        return repr(f"se_{name.lower()}_{i}")
+    if base == "float, Enum":
+        return repr(7001.5 + i)
+    if base == "bytes, Enum":
+        return repr(f"be_{i}".encode())
+    raise KeyError(base)
+
+
 def equal_variants(r, d):
     """Values that Python's == identifies with the default d (the skip decision must agree)."""
     t = d["t"]
@@ -302,7 +322,10 @@ class World:
 
     def add_enum(self, mod, qual):
         ms = self.r.sample(MEMBERS, self.r.randint(1, 3))
-        e = {"mod": mod, "qual": qual, "kind": "enum", "members": ms, "inner": []}
+        # plain Enum (what xsdata generates) and the mixed-in kinds: repr_object must test for Enum
+        # before it treats the member as the str/int/float/bytes it also is
+        base = self.r.choice(["Enum"] * 4 + ENUM_BASES)
+        e = {"mod": mod, "qual": qual, "kind": "enum", "members": ms, "inner": [], "base": base}
         self.enums.append(e)
         return e
 
@@ -392,7 +415,7 @@ class World:
                 f["default"] = r.choice([("factory", {"t": "tuple", "v": []}), ("value", {"t": "tuple", "v": []})])
                 f["annot"] = "tuple"
             else:
-                f["kind"] = ("list", r.choice(["int", "str", "class", "float", "any", "dec"]))
+                f["kind"] = ("list", r.choice(["int", "str", "class", "float", "any", "dec", "enum", "enum"]))
                 f["default"] = ("factory", {"t": "list", "v": []}) if r.random() < 0.85 else \
                     ("factory", {"t": "list", "v": [I(1), I(2)]})
                 f["annot"] = "list"
@@ -412,9 +435,14 @@ class World:
         pad = "    " * ind
         out = []
         if c["kind"] == "enum":
-            out.append(f"{pad}class {c['qual'][-1]}(Enum):")
+            base = c.get("base", "Enum")
+            out.append(f"{pad}class {c['qual'][-1]}({base}):")
             for i, m in enumerate(c["members"]):
-                out.append(f"{pad}    {m} = {i + 1!r}" if i % 2 else f"{pad}    {m} = {m.lower()!r}")
+                if base == "Enum":
+                    val = repr(i + 1) if i % 2 else repr(m.lower())
+                else:
+                    val = enum_member_value(base, i, m)
+                out.append(f"{pad}    {m} = {val}")
             return out
         out.append(f"{pad}@dataclass(frozen=True)" if c["frozen"] else f"{pad}@dataclass")
         out.append(f"{pad}class {c['qual'][-1]}:")
@@ -466,6 +494,8 @@ class InstGen:
         r = self.r
         k = r.random()
         if depth > 3 or k < 0.45:
+            if self.w.enums and r.random() < 0.12:
+                return self.enum_member()       # list items / dict values / Any fields
             return g_scalar(r)
         if k < 0.55:
             return {"t": "list", "v": [self.any_value(depth + 1) for _ in range(r.randint(0, 3))]}
@@ -478,11 +508,17 @@ class InstGen:
         if k < 0.74:
             return self.dict_value(depth + 1)
         if k < 0.80 and self.w.enums:
-            e = r.choice(self.w.enums)
-            return {"t": "enum", "c": [e["mod"], e["qual"]], "m": r.choice(e["members"])}
+            return self.enum_member()
         if k < 0.88:
             return self.generic(depth + 1)
         return self.obj(r.choice(self.w.datas), depth + 1)
+
+    def enum_member(self):
+        """A member of an enum of the world; mixed-in enums (IntEnum, StrEnum, ...) preferred."""
+        r = self.r
+        mixed = [e for e in self.w.enums if e.get("base", "Enum") != "Enum"]
+        e = r.choice(mixed) if mixed and r.random() < 0.6 else r.choice(self.w.enums)
+        return {"t": "enum", "c": [e["mod"], e["qual"]], "m": r.choice(e["members"])}
 
     def dict_value(self, depth):
         r = self.r
@@ -548,6 +584,8 @@ class InstGen:
             n = r.choice([0, 1, 1, 2, 3]) if depth < 4 else 0
             if arg == "class":
                 items = [self.obj(r.choice(self.w.datas), depth + 1) for _ in range(n)]
+            elif arg == "enum":
+                items = [self.enum_member() if self.w.enums else I(0) for _ in range(n)]
             elif arg == "any":
                 items = [self.any_value(depth + 1) for _ in range(n)]
             else:
@@ -794,7 +832,7 @@ def run(ck: Check):
     obligations, discharged, axioms = standard_proof_step(ck, extra_targets=["Model/PycodeCorr.vo", "Model/PycodeText.vo"])
     r = ck.rng
 
-    batches, labels = [], []
+    batches, labels, mixed_enums = [], [], {}
     if ck.replay_file:
         rp = json.load(open(ck.replay_file))["replay"]
         batches.append({"pkg": rp["pkg"], "modules": rp["modules"], "cases": [rp["recipe"]]})
@@ -820,6 +858,7 @@ def run(ck: Check):
                     cases.append(g.any_value(1))
             batches.append({"pkg": w.pkg, "modules": w.modules(), "cases": cases})
             labels.append([None] * len(cases))
+            mixed_enums[len(batches) - 1] = {(e["mod"], tuple(e["qual"])) for e in w.enums if e.get("base", "Enum") != "Enum"}
 
     out = run_impl("impl_c18.py", {"batches": batches}, timeout=1500)
 
@@ -946,6 +985,16 @@ def run(ck: Check):
                       "escapes, bytes and bytes subclasses, XmlDate/Time/DateTime/Duration/Period, empty and nested list/tuple/set/dict, "
                       "values == default in another representation).  distinct = distinct introspected instances; every one reaches "
                       "repr_object and exec")
+    def has_mixed(v, mixed):
+        if isinstance(v, dict):
+            if v.get("t") == "enum" and (v["c"][0], tuple(v["c"][1])) in mixed:
+                return True
+            return any(has_mixed(x, mixed) for x in v.values())
+        if isinstance(v, list):
+            return any(has_mixed(x, mixed) for x in v)
+        return False
+
+    dist["with_mixed_in_enum_member"] = sum(1 for it in items if has_mixed(it["res"]["spec"], mixed_enums.get(it["w"], ())))
     dist.update({"worlds": len(batches), "in_domain_wf": n_dom, "inside_guard": n_guard, "failed_exec_or_unequal": len(failed)})
     ck.cov["input_distribution"] = dist
     ck.cov["samples"] = [{"text": text_of(it)[:300], "exec": it["res"].get("exc"), "equal": it["res"]["equal"]}
@@ -961,5 +1010,6 @@ def run(ck: Check):
             "harness/impl_c18.py introspection of classes and instances (dataclasses.fields via xsdata ClassType)",
             "axioms: " + (", ".join(axioms) or "none (closed under the global context)")],
         assumptions=["dataclasses without custom __init__/__post_init__/__eq__, eq=True, all fields compare=True",
-                     "enums are plain Enum (default __str__)",
+                     "enum members are named members (plain Enum and mixed-in IntEnum/IntFlag/StrEnum/(str|float|bytes, Enum)); "
+                     "values of mixed-in members never equal a field default or dict key by value; unnamed flag combinations excluded",
                      "dict keys are hashable scalars; XmlTime/XmlDateTime/XmlPeriod values never equal their field default in a different representation"])
